@@ -95,6 +95,9 @@ class Mismatch:
 
 # --------------------------------------------------------------------------- impl calls
 
+_DEVNULL = open(os.devnull, "w")
+
+
 class _Timeout(BaseException):
     pass
 
@@ -144,7 +147,8 @@ def call_impl(fn, timeout=2.0, err_map=None):
     old = signal.signal(signal.SIGALRM, _alarm)
     signal.setitimer(signal.ITIMER_REAL, timeout)
     try:
-        return fn()
+        with contextlib.redirect_stdout(_DEVNULL):      # the library has stray print() calls
+            return fn()
     except _Timeout:
         return "diverged"
     except BaseException as e:  # noqa: the implementation may raise anything
@@ -466,7 +470,8 @@ def evaluate_cases(prop, case_iter, stats, max_mismatches=25, sample_every=None,
             if len(stats.samples) < 6 and (stats.evaluations in (1, 2, 3) or stats.evaluations % 997 == 0):
                 stats.samples.append({"descr": c.descr, "lines": c.lines[:6], "expected": exp[:6], "observed": obs[:6]})
             if "bad-op" in exp:
-                raise MachineryError(f"driver rejected protocol line(s) {c.lines[:3]} -> {exp[:3]}")
+                i = list(exp).index("bad-op")
+                raise MachineryError(f"driver rejected protocol line {c.lines[i]!r} (line {i} of {c.lines[:2]}…)")
             if c.kind == "fault":
                 # lines = [parse(original), parse(corrupted)].  The property: the original parses to its
                 # content, and the corrupted string is refused or yields exactly that content.
@@ -484,8 +489,13 @@ def evaluate_cases(prop, case_iter, stats, max_mismatches=25, sample_every=None,
             if list(exp) != list(obs):
                 if c.kind == "split":
                     # lines are "<what the property demands> | <what the model of the code does>"
-                    left = lambda xs: [x.split(" | ")[0] for x in xs]
-                    c.kind = "prop" if left(exp) != left(obs) else "model"
+                    # the left part "na" means: outside what the property speaks about
+                    pairs = [(e.split(" | ")[0], o.split(" | ")[0]) for e, o in zip(exp, obs)]
+                    flagged = any("!PROP" in o for o in obs)      # the harness's own property oracle fired on the implementation
+                    c.kind = "prop" if (flagged or len(exp) != len(obs) or any(e != o for e, o in pairs if e != "na")) else "model"
+                    if c.kind == "model" and [e.split(" | ")[1:] for e in exp] == [o.split(" | ")[1:] for o in obs]:
+                        c.kind = "split"
+                        continue
                 mismatches.append(Mismatch(c, exp, obs))
         buf.clear()
 
